@@ -49,6 +49,7 @@ def run(rep: Report, tier: str) -> None:
 	rule_e(rep, idx, tier)
 	rule_f(rep, idx)
 	rule_g(rep, idx)
+	rule_h(rep, idx)
 
 
 def _errors_classes(idx: SourceIndex) -> dict[str, object]:
@@ -64,10 +65,28 @@ def _is_errors_name(name: str | None) -> bool:
 # ---- (a) third-party parser boundary ---------------------------------------------------------------------------
 
 def rule_a(rep: Report, idx: SourceIndex, typer: Typer) -> None:
-	r = rep.rule('C07/parser-boundary', 'every <lark.Lark>.parse(...) call lies in a try whose handler catches Exception (or broader) and raises Errors.Syntax', floor=1)
+	r = rep.rule('C07/parser-boundary', 'every <lark.Lark>.parse(...) call and every read of the module source in lark/parser.py lies in a try whose handler catches Exception (or broader) and raises Errors.Syntax (in the same function, or around every call site of the private helper)', floor=2)
 	m = idx.mod('rogw/tranp/implements/syntax/lark/parser.py')
 	rep.consulted(m.relpath)
 	n_sites = 0
+	def converting(f, n) -> bool:
+		pm_ = parent_map(f.node)
+		for t in enclosing_tries(n, pm_):
+			for h in t.handlers:
+				if set(handler_types(h)) & {'Exception', 'BaseException'} and any(raised_name(x) == 'Errors.Syntax' for x in handler_raises(h)):
+					return True
+		return False
+
+	def protected(f, n, depth: int = 0) -> bool:
+		"""n (a call inside f) lies in a converting try of f itself, or f is a private method all of whose call sites are protected
+		(only same-function tries count for a closure: it is called elsewhere)"""
+		if converting(f, n):
+			return True
+		if depth > 2 or f.cls is None or '.<locals>.' in f.qualname or not f.name.startswith('_'):
+			return False
+		sites = [(g, c) for g in m.functions.values() for c in walk_no_nested(g.node) if isinstance(c, ast.Call) and isinstance(c.func, ast.Attribute) and c.func.attr == f.name and isinstance(c.func.value, ast.Name) and c.func.value.id in ('self', 'cls')]
+		return bool(sites) and all(protected(g, c, depth + 1) for g, c in sites)
+	n_reads = 0
 	for q, f in m.functions.items():
 		pm = None
 		lark_names = set()
@@ -87,18 +106,17 @@ def rule_a(rep: Report, idx: SourceIndex, typer: Typer) -> None:
 					continue
 				n_sites += 1
 				pm = pm or parent_map(f.node)
-				ok = False
-				# the try may be in this function or in the enclosing function around a nested def — only same-function tries count (a closure is called elsewhere)
-				for t in enclosing_tries(n, pm):
-					for h in t.handlers:
-						if set(handler_types(h)) & {'Exception', 'BaseException'}:
-							ok = any(raised_name(x) == 'Errors.Syntax' for x in handler_raises(h))
-						if ok:
-							break
-					if ok:
-						break
 				key = f'{q}:{unparse(n)}'
-				r.check(ok, key, (m.relpath, n.lineno), f'third-party parser call `{unparse(n)}` in {q} is not enclosed by `except Exception -> raise Errors.Syntax`: lark.UnexpectedInput escapes for unparsable text (in-memory modules take this branch)', unparse(stmt_of(n, pm)))
+				r.check(protected(f, n), key, (m.relpath, n.lineno), f'third-party parser call `{unparse(n)}` in {q} is not enclosed by `except Exception -> raise Errors.Syntax`: lark.UnexpectedInput escapes for unparsable text (in-memory modules take this branch)', unparse(stmt_of(n, pm)))
+			elif isinstance(n, ast.Call) and isinstance(n.func, ast.Attribute) and n.func.attr.endswith('source_provider') and f.name != '__init__':
+				# reading the module source is part of the load: the provider raises FileNotFoundError for an import of a module that exists in no
+				# source root and UnicodeDecodeError for an undecodable file (RAISE_EXEMPT above relies on this boundary converting them)
+				n_reads += 1
+				pm = pm or parent_map(f.node)
+				key = f'{q}:{unparse(n)}'
+				r.check(protected(f, n), key, (m.relpath, n.lineno), f'the source read `{unparse(n)}` in {q} is outside the `except Exception -> raise Errors.Syntax` boundary: FileNotFoundError (import of a module that exists in no source root) and UnicodeDecodeError (undecodable file) escape Modules.load, and the interactive loop ends instead of printing the error', unparse(stmt_of(n, pm)))
+	if n_reads < 1:
+		r.skip('source-read', (m.relpath, 1), 'no call of the source provider found in lark/parser.py')
 	if n_sites < 1:
 		raise AnalysisError('C07-a: no lark parse call site found in lark/parser.py')
 
@@ -477,3 +495,60 @@ def rule_g(rep: Report, idx: SourceIndex) -> None:
 			else:
 				r.ok(o.key, (o.file, o.line))
 	rep.extra_coverage['raw_subscripts_on_children'] = n
+
+
+# ---- (h) the renderer does not evaluate foreign __str__ unprotected -----------------------------------------------------------------
+
+def rule_h(rep: Report, idx: SourceIndex) -> None:
+	"""ErrorRender prints the arguments of the error: nodes and reflections, whose __str__ resolves names lazily (fullyname, attrs) and raises again for
+	the very element that caused the error (`class A([int]): ...`). "The error rendering itself never fails" therefore needs every stringification of
+	an element of e.args inside a try whose handler catches Exception and does not raise. (Decides this clause only; index/IO errors inside the
+	renderer depend on run-time values and are not decided.)"""
+	r = rep.rule('C07/error-render-total', 'in ErrorRender every str()/format of an element of e.args (a node or reflection whose __str__ runs name resolution) lies in a try that catches Exception without re-raising', floor=1)
+	m = idx.mod('rogw/tranp/view/error_render.py')
+	rep.consulted(m.relpath)
+	cls = m.cls('ErrorRender')
+	if cls is None:
+		raise AnalysisError('ErrorRender vanished')
+	methods = {name: defs[-1] for name, defs in cls.methods.items()}
+
+	def arg_names(f) -> set[str]:
+		out = set()
+		for n in ast.walk(f.node):
+			if isinstance(n, (ast.For, ast.comprehension)) and unparse(n.iter).endswith('.e.args') and isinstance(n.target, ast.Name):
+				out.add(n.target.id)
+		return out
+
+	def swallowed(f, n) -> bool:
+		pm_ = parent_map(f.node)
+		for t in enclosing_tries(n, pm_):
+			for h in t.handlers:
+				if set(handler_types(h)) & {'Exception', 'BaseException'} and not handler_raises(h):
+					return True
+		return False
+	work = [(f, arg_names(f), 0) for f in methods.values() if arg_names(f)]
+	seen = set()
+	sites = 0
+	while work:
+		f, names, depth = work.pop()
+		if (f.name, tuple(sorted(names))) in seen:
+			continue
+		seen.add((f.name, tuple(sorted(names))))
+		for n in ast.walk(f.node):
+			hit = None
+			if isinstance(n, ast.Call) and isinstance(n.func, ast.Name) and n.func.id in ('str', 'repr', 'format') and n.args and isinstance(n.args[0], ast.Name) and n.args[0].id in names:
+				hit = n
+			elif isinstance(n, ast.FormattedValue) and isinstance(n.value, ast.Name) and n.value.id in names:
+				hit = n
+			elif isinstance(n, ast.Call) and isinstance(n.func, ast.Attribute) and isinstance(n.func.value, ast.Name) and n.func.value.id == 'self' and depth < 2:
+				g = cls.method(n.func.attr)
+				if g is not None and not swallowed(f, n):
+					params = [a.arg for a in g.node.args.args][1:]
+					passed = {p_ for p_, a in zip(params, n.args) if isinstance(a, ast.Name) and a.id in names}
+					if passed:
+						work.append((g, passed, depth + 1))
+			if hit is not None:
+				sites += 1
+				r.check(swallowed(f, hit), f'{f.qualname}:{unparse(hit)[:40]}', (m.relpath, hit.lineno), f'{f.qualname} stringifies an error argument with `{unparse(hit)[:60]}` outside any `except Exception` that does not re-raise: __str__ of a node / reflection resolves names lazily and raises again for the element that caused the error (`class A([int]): ...`, `for a in {{a: True}} + print: pass`), so str(ErrorRender(e)) raises and the interactive loop ends', unparse(hit)[:80])
+	if sites == 0:
+		r.skip('args-stringified', cls.where, 'ErrorRender no longer stringifies the elements of e.args in a recognised form')
